@@ -89,14 +89,30 @@ def scenario_schedules(seed, salt, reps=1):
             out.append(pre + [{"ev": "ByzCraft", "kind": "rc", "b": 3, "r": 2, "v": 1, "vals": [1, 2], "defect": defect,
                                "seed": r.randrange(1 << 30), "to": [2, 0]},
                               S("RC", 0, 2, 2), S("RC", 1, 2, 2), tail()])
-        # C. adversarial DECIDED while honest COMMITs for value 2 / round 1 are in flight
+        # C. adversarial DECIDED while honest COMMITs for value 2 / round 1 are in flight (both values, every defect)
         for defect in range(6):
-            hon = [0, 1, 3]
-            pre = [config_step(4, 0, [2])] + [{"ev": "Start", "p": p} for p in hon] + \
-                  [{"ev": "Input", "p": p, "v": 1 + (p % 2)} for p in hon] + \
-                  [S("PP", 1, 1, p) for p in hon] + [S("P", q, 1, p) for p in hon for q in hon]
-            out.append(pre + [{"ev": "ByzCraft", "kind": "d", "b": 2, "r": 1, "v": r.choice([1, 2]), "vals": [1, 2],
-                               "defect": defect, "seed": r.randrange(1 << 30), "to": r.sample(hon, 2)}, tail()])
+            for v in (1, 2):
+                hon = [0, 1, 3]
+                pre = [config_step(4, 0, [2])] + [{"ev": "Start", "p": p} for p in hon] + \
+                      [{"ev": "Input", "p": p, "v": 1 + (p % 2)} for p in hon] + \
+                      [S("PP", 1, 1, p) for p in hon] + [S("P", q, 1, p) for p in hon for q in hon]
+                out.append(pre + [{"ev": "ByzCraft", "kind": "d", "b": 2, "r": 1, "v": v, "vals": [1, 2],
+                                   "defect": defect, "seed": r.randrange(1 << 30), "to": r.sample(hon, 2)}, tail(steps=80)])
+        # E. Byzantine leader of round 3 (member 3); member 0 holds a prepared certificate from round 1, everybody timed out
+        #    twice: PRE-PREPAREs for round 3 whose justification is almost right (each defect, both proposed values)
+        for defect in range(8):
+            for v in (1, 2):
+                hon = [0, 1, 2]
+                pre = [config_step(4, 0, [3])] + [{"ev": "Start", "p": p} for p in hon] + \
+                      [{"ev": "Input", "p": p, "v": 1 + (p % 2)} for p in hon] + \
+                      [S("PP", 1, 1, p) for p in hon] + \
+                      [{"ev": "ByzCraft", "kind": "vote", "b": 3, "r": 1, "v": 2, "vals": [1, 2], "defect": 0,
+                        "seed": 2 * r.randrange(1 << 29) + 1, "to": [0]}] + \
+                      [S("P", q, 1, 0) for q in hon] + [S("P", 1, 1, 1)] + \
+                      [{"ev": "Timeout", "p": p} for p in hon] + [S("RC", q, 2, p) for p in hon for q in hon] + \
+                      [{"ev": "Timeout", "p": p} for p in hon]
+                out.append(pre + [{"ev": "ByzCraft", "kind": "pp", "b": 3, "r": 3, "v": v, "vals": [1, 2], "defect": defect,
+                                   "seed": r.randrange(1 << 30), "to": hon}, tail(steps=80)])
         # D. honest only: a lagging member jumps to round 2 through a justified PRE-PREPARE that is then re-delivered
         hon = [0, 1, 2, 3]
         pre = [config_step(4, 0, [])] + [{"ev": "Start", "p": p} for p in hon] + \
@@ -183,6 +199,30 @@ def mutators():
     return [("rule flipped to NONE", flip_rule), ("PREPARE value changed", change_bcast_value),
             ("one PREPARE delivery dropped before quorum", drop_delivery), ("decided value changed", wrong_decision),
             ("forged honest COMMITs in a Byzantine DECIDED", forged_honest)]
+
+
+def trace_to_schedule(t, upto=None):
+    """An explicit replay schedule for a recorded trace (used to reproduce a rejection of an ONLINE random schedule,
+    whose choices depend on Go map order inside qbft and are therefore not repeatable from the seed alone)."""
+    r = t[0]
+    out = [config_step(r["n"], r["inst"], r["byz"], r["cfail"])]
+    for e in (t[1:] if upto is None else t[1:upto + 1]):
+        ev = e.get("ev")
+        if ev == "Anomaly":
+            ev = e.get("was")
+        if ev == "Start":
+            out.append({"ev": "Start", "p": e["p"]})
+        elif ev == "Input":
+            out.append({"ev": "Input", "p": e["p"], "v": e["v"]})
+        elif ev == "Timeout":
+            out.append({"ev": "Timeout", "p": e["p"]})
+        elif ev == "Crash":
+            out.append({"ev": "Crash", "p": e["p"]})
+        elif ev == "ByzSend":
+            out.append({"ev": "ByzSend", "m": e["m"]})
+        elif ev == "Deliver":
+            out.append({"ev": "Deliver", "p": e["p"], "m": e["m"]})
+    return out
 
 
 def replay(pid, path):
